@@ -10,9 +10,13 @@ Tokenisation and comma splitting are the C12 primitives `splitTex .space` / `spl
 
 The model follows the code after the proposed repairs C04-1 (`is_von_name` no longer lets
 `too many nested braces` escape: an over-nested token that does not start with a cased character
-has no case) and C04-2 (`special_char_islower` knows the case of BibTeX's thirteen built-in
-foreign characters).  With them model and rule agree on EVERY string; none of the theorems below
-has a "scans within the nesting limit" hypothesis any more.
+has no case), C04-2 (`special_char_islower` knows the case of BibTeX's thirteen built-in
+foreign characters) and C04-3 (`is_von_name` takes a brace-level-1 item starting with a backslash
+for a special character only when it directly follows the brace that opens its group: an ordinary
+group is passed over whatever it contains, as in bibtex.web).  With them model and rule agree on
+EVERY string; none of the theorems below has a "scans within the nesting limit" hypothesis any
+more, and the rule equals the scanner-free restatement of bibtex.web's `von_token_found` on every
+token within the nesting limit (`C04_case_bibtex_partial`).
 
 Character classes: "letter", "upper case", "lower case" are `isAlphaN` / `isUpperN` / `isLowerN`
 (`Model/Names.lean`): Python's `str.isalpha` / `isupper` / `islower` on one character, as
@@ -170,27 +174,26 @@ theorem C04_case_of_token_nonvacuous_unicode :
       t ≠ [] ∧ Spec.isLow t = false) := by
   decide +kernel
 
-/-- **The case rule without the scanner — bibtex.web's rule — and where pybtex follows it.**
+/-- **The case rule without the scanner — bibtex.web's rule.**
 `Spec.tokenCase` (the rule of `C04_case_of_token` / `C04_matches_spec`) is stated on the token list of
 the shared scanner `scan`; "brace level 0" and "special character" are the scanner's notions there.
-`Spec.tokenCaseBibtex` restates the rule of bibtex.web §§ 397–401 as one pass over the characters
-with a brace counter only (a cased first character decides; else the first brace-level-0 letter; a
-`{` at level 0 immediately followed by a backslash starts a special character, which decides; every
-other group is skipped).  The two agree — and `is_von_name` answers by the scanner-free rule — on
-every non-empty token that starts with a cased character, or that nests at most 100 levels
-(`Spec.maxDepth`, C12) and has no backslash at brace level 1 of an ORDINARY group before its case is
-decided (`Spec.plainGroups`).  Neither proviso can be dropped: `C04_case_bibtex_neg`,
-`C04_overnested_case`. -/
+`Spec.tokenCaseBibtex` restates the rule of bibtex.web §§ 397–401 (`von_token_found`) as one pass
+over the characters with a brace counter only (a cased first character decides; else the first
+brace-level-0 letter; a `{` at level 0 immediately followed by a backslash starts a special
+character, which decides; every other group is skipped, whatever it contains).  The two agree — and
+`is_von_name` answers by the scanner-free rule — on EVERY non-empty token that starts with a cased
+character or nests at most 100 levels (`Spec.maxDepth`, C12): after the repair C04-3 nothing else is
+asked.  The nesting clause cannot be dropped (`C04_overnested_case`: pybtex's scanner limit, which
+BibTeX does not have). -/
 theorem C04_case_bibtex_partial (t : Str) (hne : t ≠ [])
-    (h : (match t with | c :: _ => isUpperN c || isLowerN c | [] => false) = true ∨
-         (Spec.maxDepth 0 t ≤ maxLevel ∧ Spec.plainGroups 0 t = true)) :
+    (h : Spec.firstCased t = true ∨ Spec.maxDepth 0 t ≤ maxLevel) :
     Spec.tokenCase t = Spec.tokenCaseBibtex t ∧
     isVonName t = .ok (decide (Spec.tokenCaseBibtex t = .lower)) := by
   have key : Spec.tokenCase t = Spec.tokenCaseBibtex t := by
-    rcases h with h | ⟨hd, hp⟩
+    rcases h with h | hd
     · match t, hne with
       | c :: r, _ =>
-        simp only [Bool.or_eq_true] at h
+        simp only [Spec.firstCased, List.head?_cons, Bool.or_eq_true] at h
         unfold Spec.tokenCase Spec.tokenCaseBibtex
         rcases h with h | h
         · simp [Spec.charCase, h]
@@ -200,36 +203,74 @@ theorem C04_case_bibtex_partial (t : Str) (hne : t ≠ [])
             | true => rw [upper_lower_disjoint hu] at h; cases h
           simp [Spec.charCase, h, hu]
     · obtain ⟨toks, ht⟩ := Option.isSome_iff_exists.1 ((C12_scan_total t).2 hd)
-      exact tokenCase_eq_bibtex ht hp
+      exact tokenCase_eq_bibtex ht
   refine ⟨key, ?_⟩
   rw [isVonName_eq hne, Spec.isLow, key]
 
 theorem C04_case_bibtex_partial_nonvacuous :
-    (∀ t ∈ ["{\\'e}cole", "{\\relax von}", "{x}von", "{{\\x}}von", "a{x\\y}", "1{\\'E}x", "}von"].map String.toList,
-      t ≠ [] ∧ Spec.maxDepth 0 t ≤ maxLevel ∧ Spec.plainGroups 0 t = true) ∧
+    (∀ t ∈ ["{\\'e}cole", "{\\relax von}", "{x}von", "{{\\x}}von", "a{x\\y}", "1{\\'E}x", "}von", "{x\\y}von",
+        "{x}{\\y}von", "{x\\}n"].map String.toList,
+      t ≠ [] ∧ Spec.maxDepth 0 t ≤ maxLevel) ∧
     Spec.tokenCaseBibtex "{\\relax von}".toList = .lower ∧ Spec.tokenCaseBibtex "{{\\x}}von".toList = .lower ∧
     Spec.tokenCaseBibtex "1{\\'E}x".toList = .upper ∧
     -- over-nested but starting with a cased character: the first disjunct
-    (match tokDeepLower with | c :: _ => isUpperN c || isLowerN c | [] => false) = true := by
+    Spec.firstCased tokDeepLower = true ∧ ¬ Spec.maxDepth 0 tokDeepLower ≤ maxLevel := by
   decide +kernel
 
-/-- **Where pybtex does NOT follow bibtex.web's case rule** (the proviso `plainGroups` cannot be
-dropped): in `{x\y}von` the group `{x\y}` is an ordinary group (it does not start with a backslash), so
-bibtex.web skips it and the first brace-level-0 letter `v` makes the token lower-case (a von token).
-pybtex's scanner hands the backslash inside the group out as a brace-level-1 token that starts with
-a backslash, which `is_von_name` takes for a special character without a letter: the token has NO
-case.  `Person('Jean {x\y}von Last')` therefore has no von part (the token is a middle name), while
-without the backslash (`{xy}von`) it has.  (The rule `Spec.tokenCase` follows the scanner here, which
-is why `C04_matches_spec` holds for every string.) -/
-theorem C04_case_bibtex_neg :
+/-- **A backslash inside an ordinary group does not make a special character** (instance of
+`C04_case_bibtex_partial`, by kernel evaluation; the behaviour repaired by C04-3).  In `{x\y}von`
+the group `{x\y}` is an ordinary group — the brace that opens it is not followed by a backslash — so,
+as bibtex.web does, it is passed over and the first brace-level-0 letter `v` makes the token
+lower-case: `Person('Jean {x\y}von Last')` has the von part `{x\y}von`, like `{xy}von`.  The scanner
+still hands the inner backslash out as a brace-level-1 token that starts with a backslash; it no
+longer counts, because it does not directly follow the token of the opening brace.  A group opened
+at level 0 that DOES start with a backslash is a special character wherever it stands in the token:
+`{x}{\y}von` has no case (the special character `\y` contains no letter after its control sequence),
+`{x}{\o}x` is lower-case by the table of built-in foreign characters. -/
+theorem C04_case_bibtex_ordinary_group :
     let t := "{x\\y}von".toList
-    Spec.maxDepth 0 t ≤ maxLevel ∧ Spec.plainGroups 0 t = false ∧
-    Spec.tokenCaseBibtex t = .lower ∧ Spec.tokenCase t = .caseless ∧ isVonName t = .ok false ∧
+    Spec.maxDepth 0 t ≤ maxLevel ∧
+    Spec.tokenCaseBibtex t = .lower ∧ Spec.tokenCase t = .lower ∧ isVonName t = .ok true ∧
     scan t = some [(['{'], 1), (['x'], 1), (['\\'], 1), (['y'], 1), (['}'], 0), (['v'], 0), (['o'], 0), (['n'], 0)] ∧
     parseName "Jean {x\\y}von Last".toList =
-      .ok ({ first := ["Jean".toList], middle := ["{x\\y}von".toList], last := ["Last".toList] }, false) ∧
+      .ok ({ first := ["Jean".toList], prelast := ["{x\\y}von".toList], last := ["Last".toList] }, false) ∧
     parseName "Jean {xy}von Last".toList =
-      .ok ({ first := ["Jean".toList], prelast := ["{xy}von".toList], last := ["Last".toList] }, false) := by
+      .ok ({ first := ["Jean".toList], prelast := ["{xy}von".toList], last := ["Last".toList] }, false) ∧
+    Spec.tokenCase "{x}{\\y}von".toList = .caseless ∧ Spec.tokenCaseBibtex "{x}{\\y}von".toList = .caseless ∧
+    isVonName "{x}{\\o}x".toList = .ok true ∧ isVonName "{x\\o}X".toList = .ok false := by
+  decide +kernel
+
+/-- **The whole split against the scanner-free rule.**  `Spec.splitBibtex` is the rule `Spec.split`
+with the case of every token decided by `Spec.tokenCaseBibtex` (bibtex.web's `von_token_found`
+restated without the scanner) instead of `Spec.tokenCase`.  The model of `Person._parse_string`
+equals it on every non-empty name whose case-deciding tokens (`Spec.caseTokens`: every token of a
+name without commas; the tokens of the first comma part except its final one otherwise) each start
+with a cased character or nest at most 100 levels — i.e. `C04_matches_spec` no longer depends on
+the scanner's notions of brace level and special character there (tokens are still those of the
+shared tokeniser `splitTex`). -/
+theorem C04_matches_bibtex_rule (name : Str) (hne : name ≠ [])
+    (h : ∀ t ∈ Spec.caseTokens name, Spec.firstCased t = true ∨ Spec.maxDepth 0 t ≤ maxLevel) :
+    parseName name = .ok (Spec.splitBibtex name) := by
+  rw [C04_matches_spec name hne, split_eq_splitBy, Spec.splitBibtex]
+  congr 1
+  apply splitBy_congr
+  intro t hmem
+  by_cases ht : t = []
+  · subst ht; decide
+  · simp only [Spec.isLow, Spec.isLowBibtex, (C04_case_bibtex_partial t ht (h t hmem)).1]
+
+/-- names with a backslash inside an ordinary group, in the three comma forms: the case-deciding
+tokens are within the nesting limit, and the split by the scanner-free rule is the expected one -/
+theorem C04_matches_bibtex_rule_nonvacuous :
+    (∀ n ∈ ["Jean {x\\y}von Last", "von {x\\o}x Last, First", "{x\\y}von {x}{\\y}von Last, Jr, First"].map String.toList,
+      n ≠ [] ∧ ∀ t ∈ Spec.caseTokens n, Spec.maxDepth 0 t ≤ maxLevel) ∧
+    Spec.splitBibtex "Jean {x\\y}von Last".toList =
+      ({ first := ["Jean".toList], prelast := ["{x\\y}von".toList], last := ["Last".toList] }, false) ∧
+    Spec.splitBibtex "von {x\\o}x Last, First".toList =
+      ({ first := ["First".toList], prelast := ["von".toList, "{x\\o}x".toList], last := ["Last".toList] }, false) ∧
+    Spec.splitBibtex "{x\\y}von {x}{\\y}von Last, Jr, First".toList =
+      ({ first := ["First".toList], prelast := ["{x\\y}von".toList], last := ["{x}{\\y}von".toList, "Last".toList],
+         lineage := ["Jr".toList] }, false) := by
   decide +kernel
 
 /-- A token whose braces nest deeper than the scanner follows them (more than 100 levels): its
